@@ -1,5 +1,5 @@
 CONSTANTS
-  NC = 3
+  NC = 4
   Bug = {}
 INIT Init
 NEXT Next
